@@ -4,6 +4,7 @@ Env/Knapsack/Lemmas.lean).  Sections are named after the property they belong to
 -/
 import JumanjiModel.Env.Knapsack.Lemmas
 import JumanjiModel.Env.Knapsack.Bounds
+import JumanjiModel.Prim.FloatLemmas
 open Jm Knapsack
 
 namespace Props.C01
@@ -59,6 +60,11 @@ remaining budget never becomes negative under legal play -/
 theorem knapsack_remaining_nonneg (rnd : Rat → Rat) (hmono : ∀ x y, x ≤ y → rnd x ≤ rnd y)
     (h0 : rnd 0 = 0) (dense : Bool) (s : State) (a : Nat) (hr : 0 ≤ s.remaining) (hl : legal s a) :
     0 ≤ (step rnd dense s a).1.remaining := Knapsack.remaining_nonneg rnd hmono h0 dense s a hr hl
+
+/-- in particular for the float32 model: `Jx.roundF32` is monotone and fixes 0 (Prim/FloatLemmas.lean) -/
+theorem knapsack_remaining_nonneg_roundF32 (dense : Bool) (s : State) (a : Nat) (hr : 0 ≤ s.remaining)
+    (hl : legal s a) : 0 ≤ (step Jx.roundF32 dense s a).1.remaining :=
+  Knapsack.remaining_nonneg Jx.roundF32 (fun _ _ h => Jx.roundF32_mono h) Jx.roundF32_zero dense s a hr hl
 
 example : Feasible 1 ⟨[1/2, 1/4], [1, 1], [false, true], 3/4⟩ := by decide +kernel
 end Props.C06
